@@ -38,7 +38,7 @@ func (c16) Describe() CheckInfo {
 		},
 		RealCode:       []string{"gopatch main()/runMain/mainCmd.Run, findFiles/findGoFiles, loader, internal/*, all dependencies"},
 		Stubs:          []string{"package os (simulated filesystem with byte-granular write faults and kill), path/filepath walk, io/ioutil"},
-		RequiredProbes: []string{"write-fault-after-truncate", "kill-between-open-and-first-byte", "kill-mid-write", "write-fault-mid-write", "open-fail-target", "open-fail-patch", "read-fail", "walk-fail", "unparseable-target", "misfit-target", "missing-path", "multi-file-fault-on-non-first", "fault-pair"},
+		RequiredProbes: []string{"write-fault-after-truncate", "kill-between-open-and-first-byte", "kill-mid-write", "write-fault-mid-write", "open-fail-target", "open-fail-patch", "read-fail", "walk-fail", "unparseable-target", "misfit-target", "missing-path", "multi-file-fault-on-non-first", "fault-pair", "sticky-write-fault"},
 	}
 }
 
@@ -110,6 +110,7 @@ func (c16) Gen(env *Env, seed uint64, tier string, i int) *Case {
 			c.AddFile(fmt.Sprintf("%sbad%d.go", dir, j), UnparseableFile(r), "unparseable", nil, "")
 		}
 	}
+	AddDecoys(c, r)
 	c.Flags = Flags{SkipImport: r.Chance(1, 4), Verbose: r.Chance(1, 4)}
 	if r.Chance(1, 6) {
 		c.Flags.Diff = true
@@ -147,7 +148,6 @@ func c16Inputs(c *Case, r *world.PRNG) {
 		src := GenValidGoFile(r, GoFileOpts{Funcs: 1, Stmts: []string{m.Stmt(k)}})
 		p := c.AddFile(fmt.Sprintf("%smis.go", r.Pick([]string{"", "a/", "zz/"})), src, "misfit", nil, m.Name)
 		c.Targets = append(c.Targets, strings.TrimPrefix(p, ProjDir+"/"))
-		c.Flags.SkipImport = false
 	case "missing-path":
 		pos := r.Intn(len(c.Targets) + 1)
 		name := r.Pick([]string{"nosuch", "nosuch.go", "pkg/none/...", "/sim/w/absent"})
@@ -293,6 +293,15 @@ func (c16) Eval(env *Env, c *Case) []Violation {
 				judge([]world.Fault{{AtOp: k, Kind: "fail", Bytes: j, Errno: ens[r.Intn(len(ens))]}}, class)
 				if j > 0 && j < n && o.Name == "write" {
 					judge([]world.Fault{{AtOp: k, Kind: "kill", Bytes: j}}, class)
+				}
+			}
+			if o.Name == "write" {
+				// the condition persists (disk full, quota, file size limit): every later file write fails too
+				for _, j := range []int{0, n / 2, n - 1} {
+					if j >= 0 {
+						env.Probe("sticky-write-fault")
+						judge([]world.Fault{{AtOp: k, Kind: "fail", Bytes: j, Errno: []string{"ENOSPC", "EFBIG", "EDQUOT"}[r.Intn(3)], Sticky: true}}, class)
+					}
 				}
 			}
 			continue
@@ -523,45 +532,58 @@ func c16Judge(env *Env, c *Case, init []world.FileState, pilot, r *RunResult, cl
 			}
 		}
 	}
+	// files that are not Go sources must never be touched, whatever happens
+	for _, st := range init {
+		if st.Kind != world.KFile || strings.HasSuffix(st.Path, ".go") || !strings.HasPrefix(st.Path, ProjDir+"/") {
+			continue
+		}
+		g := FindState(r.Final, st.Path)
+		if g == nil || !bytes.Equal(g.Data, st.Data) {
+			add("all-or-nothing", "bystander-file-changed/"+first.Fault, fmt.Sprintf("%s, which is not a Go file, was %s", st.Path, map[bool]string{true: "removed", false: "modified"}[g == nil]))
+		}
+	}
 	if r.Outcome == OutKilled {
 		return vs
 	}
 	if r.Outcome != OutExit {
 		return vs
 	}
-	// ---- 4. exit 0 is trustworthy --------------------------------------------
-	mustReport := mustReportClass(class)
+	// ---- consequence of the fault ------------------------------------------------
+	// A fault needs reporting only if it kept gopatch from processing something:
+	// a file the fault-free run patches is not patched, or (dry-run modes) the
+	// output differs from the fault-free output. A program that copes with the
+	// fault (retry, fallback, an lstat whose result it did not need) owes nothing.
+	stderrFaulted0 := false
+	stdoutFaulted := false
 	for _, f := range r.Fired {
 		if f.Name == "stderr" {
-			mustReport = false
+			stderrFaulted0 = true
+		}
+		if f.Name == "stdout" {
+			stdoutFaulted = true
 		}
 	}
-	if isPair {
-		must := false
-		stderrHit := false
-		for _, f := range r.Fired {
-			if f.Fault == "fail" && mustReportClass(opClass(f, wroteH)) {
-				must = true
-			}
-			if f.Name == "stderr" {
-				stderrHit = true
-			}
-		}
-		if r.Exit == 0 && firstUnpatched != "" {
-			add("exit-status", "zero-but-unpatched/pair", fmt.Sprintf("exit status 0 although %s was not patched after faults %v", firstUnpatched, r.Fired))
-		} else if r.Exit == 0 && must && !stderrHit {
-			add("exit-status", "zero-after-fault/pair", fmt.Sprintf("exit status 0 after injected faults %v", r.Fired))
+	consequence := firstUnpatched != ""
+	if !consequence && (c.Flags.Diff || c.Flags.Print) && !c.Flags.Verbose && !bytes.Equal(r.Stdout, pilot.Stdout) {
+		consequence = true
+	}
+	if !consequence && pilot.Exit == 0 && r.Exit != 0 {
+		consequence = true // the run itself says something went wrong
+	}
+	mustReport := consequence && !stderrFaulted0
+	// ---- 4. exit 0 is trustworthy --------------------------------------------
+	if r.Exit == 0 {
+		switch {
+		case firstUnpatched != "":
+			add("exit-status", "zero-but-unpatched/"+class, fmt.Sprintf("exit status 0 but %s was left unpatched after %s on %s %s", firstUnpatched, first.Err, first.Name, first.Path))
+		case consequence && pilot.Exit == 0:
+			add("exit-status", "zero-but-output-incomplete/"+mode, fmt.Sprintf("exit status 0 although the %s output differs from the fault-free run after %s on %s %s", mode, first.Err, first.Name, first.Path))
+		case stdoutFaulted && (c.Flags.Diff || c.Flags.Print) && !c.Flags.Verbose && pilot.Exit == 0:
+			add("exit-status", "zero-after-output-failure/"+mode, fmt.Sprintf("exit status 0 although writing the %s output failed with %s", mode, first.Err))
 		}
 		return vs
 	}
-	if r.Exit == 0 {
-		if firstUnpatched != "" {
-			add("exit-status", "zero-but-unpatched/"+class, fmt.Sprintf("exit status 0 but %s was left unpatched after %s on %s %s", firstUnpatched, first.Err, first.Name, first.Path))
-		} else if mustReport {
-			add("exit-status", "zero-after-fault/"+class, fmt.Sprintf("exit status 0 although %s %s failed with %s", first.Name, first.Path, first.Err))
-		} else if (class == "stdout") && (c.Flags.Diff || c.Flags.Print) && !c.Flags.Verbose {
-			add("exit-status", "zero-after-output-failure/"+mode, fmt.Sprintf("exit status 0 although writing the %s output failed with %s", mode, first.Err))
-		}
+	if isPair {
 		return vs
 	}
 	// ---- 2b. failures found before the fault struck are still reported -------
@@ -592,7 +614,7 @@ func c16Judge(env *Env, c *Case, init []world.FileState, pilot, r *RunResult, cl
 		}
 	}
 	// ---- 2. reported ----------------------------------------------------------
-	if mustReport {
+	if mustReport && mustReportClass(class) {
 		stderr := string(r.Stderr)
 		cause := errnoText(first.Err)
 		if !strings.Contains(stderr, cause) {
